@@ -487,7 +487,9 @@ PureNames == SigNames \ {"arraySort", "systemGlobalGet", "systemGlobalSet", "sys
                          "systemPartial"}
 
 LibPure(name, args, heap, off) ==
-    IF name = "arrayNew" THEN LET r == Alloc("array", args, heap) IN R(r.v, r.heap)
+    \* datetimes with a sub-millisecond residue only arise from fractional offsets; the library's treatment of them is left open
+    IF \E i \in 1..Len(args) : args[i].t = "dt" /\ UsOf(args[i]) # 0 /\ name \notin {"arrayNew", "objectNew", "systemCompare"} THEN SkipR(heap)
+    ELSE IF name = "arrayNew" THEN LET r == Alloc("array", args, heap) IN R(r.v, r.heap)
     ELSE IF name = "objectNew" THEN
         LET p == ObjNewPairs(args, 1, <<>>) IN
         IF p.ok THEN LET r == Alloc("object", p.ps, heap) IN R(r.v, r.heap) ELSE RF(Null, heap)
